@@ -33,6 +33,7 @@ Verify each demo both ways yourself (`git diff > p.diff; git apply -R p.diff; â€
 HINTS = {
     "4": """Diversity hint: go for mechanisms that a systematic input-enumerating checker would be least likely to exercise â€” state shared between objects or calls (class-level attributes, caches keyed by partial information, module-level tables mutated in place), dtype width / overflow / signedness at sizes just past a power of two, rarely used public entry points and keyword arguments documented in the docstrings, views vs copies (results aliasing inputs or each other), behaviour that differs only for the 2nd/3rd call or chunk, interactions of two features (e.g. gzip x CRLF x missing final newline x lazy), values at the edge of a column's range, empty rows/fields/files in the middle of non-empty ones.""",
     "5": """Diversity hint(this is a late round: the obvious places have been tried). Prefer changes of these kinds, each needing a NARROW trigger: (1) the boundary between two code paths selected by a data-dependent predicate (fast path vs generic path, "all rows same length" vs ragged, contiguous vs view, sorted vs unsorted, one chunk vs several) where only one side is changed; (2) the dtype of an intermediate (int32/uint8/uint16/float32 where int64/float64 is needed) so that only large values, long rows, many rows or many groups overflow or lose precision; (3) ordering, tie-breaking and stability (equal keys, duplicated entries, already-sorted or reverse-sorted input); (4) off-by-one at the empty / singleton / exactly-full case of an inner structure that is not empty overall (an empty row between non-empty rows, a field of width 0, a chromosome with no entries between two that have some); (5) NumPy scalar vs Python int vs 0-d array arguments, negative zero, NaN, bool where int is expected; (6) behaviour that is correct on the first use of an object and wrong on a later use (after a write, after a field was cached, after iteration was started and abandoned); (7) a silent fallback: an exception handler or default branch that turns what used to be an error into a plausible value. Avoid anything that a straightforward enumeration of small inputs with every chunk size would expose.""",
+    "7": """Diversity hint (this is a very late round: six earlier rounds have covered the listed files' obvious and less obvious places â€” thresholds, dtype widths, views vs copies, shared class-level state, rarely used keywords, ordering and ties, error paths). Prefer, each with a NARROW trigger: (1) a change OUTSIDE the listed files â€” in a helper, base class, mixin, decorator or utility module that the listed code calls (table/dataclass machinery, encoded-array internals, ragged-array glue, string/number parsing helpers, file-type registry, `util` modules) â€” that breaks the property only along one particular route; (2) TWO cooperating edits in different functions, each harmless alone; (3) a less common member of a family (one file format / buffer type / encoding / dtype among several that share a code path) treated differently from its siblings; (4) behaviour reached only through a documented alternative spelling of the same request (a method vs the module-level function, a property vs a getter, `np.` function dispatch vs the method, slicing with a step / negative indices / boolean masks / np.newaxis / Ellipsis, `+=` vs `+`); (5) a change that is correct for inputs whose size is below a non-obvious internal constant and wrong above it, or correct when a count is odd and wrong when even; (6) text-level corner cases that are VALID for the format (trailing tab, leading zeros, `+` sign, exponent notation, upper/lower case hex or nucleotide letters, `.` as missing value, very long names); (7) results that are right in value but wrong in kind (dtype, encoding object, shape of an empty result, class of the returned table) so that only a FOLLOW-UP operation on the result goes wrong. Avoid anything that enumerating small inputs with every chunk size, or repeating a call twice, would expose.""",
 }
 if len(sys.argv) > 2 and sys.argv[2] in HINTS:
     print()
